@@ -41,10 +41,15 @@ class MeshHillClimbingSupportFunction:
             connections[j].update((i, k))
             connections[k].update((i, j))
 
-        self.shortcut_connections = np.array([
-            np.argmax(self.vertices[:, 0]), np.argmax(self.vertices[:, 1]),
-            np.argmax(self.vertices[:, 2]), np.argmin(self.vertices[:, 0]),
-            np.argmin(self.vertices[:, 1]), np.argmin(self.vertices[:, 2])])
+        # Only vertices that are part of a triangle have connections. Other
+        # vertices (e.g. points of a point cloud that lie in a face of its
+        # convex hull) must not be used as shortcuts even if they are extreme.
+        used = np.unique(triangles).astype(np.int64)
+        used_vertices = self.vertices[used]
+        self.shortcut_connections = used[np.array([
+            np.argmax(used_vertices[:, 0]), np.argmax(used_vertices[:, 1]),
+            np.argmax(used_vertices[:, 2]), np.argmin(used_vertices[:, 0]),
+            np.argmin(used_vertices[:, 1]), np.argmin(used_vertices[:, 2])])]
 
         self.connections = numba.typed.Dict.empty(numba.int64, numba.int64[:])
         for idx, connected_indices in connections.items():
